@@ -46,7 +46,7 @@ def lits_text(lits):
 class PathRec(object):
     """canonical record of one per-parameter path"""
 
-    def __init__(self, model, sp, cur, outer_lits=()):
+    def __init__(self, model, sp, cur, outer_lits=(), toplevel=False):
         self.model = model
         self.sp = sp
         self.cur = cur
@@ -58,7 +58,7 @@ class PathRec(object):
                 self.unknown_lits.append((atom, pol))
             else:
                 self.guards[c[0]] = c[1]
-        self.ces = model.canon_effects(sp.effects)
+        self.ces = model.canon_effects(sp.effects, toplevel=toplevel)
         self.raises = [c for c in self.ces if c[0] == 'raise']
         self.puts = [c for c in self.ces if c[0] == 'put']
         self.srcs = [c for c in self.ces if c[0] == 'src']
@@ -134,7 +134,7 @@ def rule_kind_closure(check, model, rule):
             rec = PathRec(model, sp, info.get('cur', {}))
             n += _closure_of(check, model, rule, rec)
     for p, _ in model.ret_paths:
-        rec = PathRec(model, p, {})
+        rec = PathRec(model, p, {}, toplevel=True)
         n += _closure_of(check, model, rule, rec, toplevel=True)
     check.floor(rule, 'puts into output buckets', n, 10)
 
@@ -571,8 +571,8 @@ def rule_kwo_and_stars(check, model, rule, categories):
             raise Inconclusive('keyword-only matching loop over the left operand not recognised')
     # B5 + B6 on top-level paths
     seen = set()
-    for p, items in model.ret_paths:
-        rec = PathRec(model, p, {})
+    for p, items in list(model.ret_paths) + [(p, None) for p in model.raise_paths]:
+        rec = PathRec(model, p, {}, toplevel=True)
         if rec.unknown_lits:
             key = 'toplevel|' + lits_text(rec.unknown_lits)
             if key not in seen:
@@ -589,6 +589,12 @@ def rule_kwo_and_stars(check, model, rule, categories):
             w = rec.g(('star', oth, 'VK'))
             some_req = rec.g(('some_required', side))
             bulk = [c for c in rec.puts if not c[4] and c[1] == kwo and c[2] is not None and c[2].side == side and c[2].each]
+            if rec.raises:
+                culprit = [s_ for s_ in ('L', 'R') if rec.g(('some_required', s_)) is True]
+                if culprit and side not in culprit:
+                    continue     # the raise belongs to the other side's handling
+                if not culprit and ne is None and w is None:
+                    continue     # this side's handling was not reached
             if ne is False:
                 if bulk:
                     msgs.append(('unknown', 'unmatched keyword-only parameters stored on the empty branch'))
@@ -621,7 +627,7 @@ def rule_kwo_and_stars(check, model, rule, categories):
                         msgs.append(('exact', 'raises although every unmatched keyword-only parameter of %s has a default' % side))
         # B6 stars
         for kind, idx in (('VP', proto.index_of_kind('VP')), ('VK', proto.index_of_kind('VK'))):
-            if rec.raises:
+            if rec.raises or items is None:
                 continue
             val = items[idx]
             l = rec.g(('star', 'L', kind))
